@@ -226,6 +226,29 @@ Theorem C08_rdomain_lookup : forall E early c,
 Proof. exact lookup_rdomain. Qed.
 Print Assumptions C08_rdomain_lookup.
 
+(* ------------------------------------------------------------------ the source as it is now *)
+(* /repo c0e596d and 78f946e repaired D6 and D16; with the bodies the translator finds in the
+   source now the two full statements are theorems.  Should either defect return, the
+   translator flips its switch, these two proofs (by [eq_refl] on the switch) no longer
+   check, and the check searches the implementation for the failing input. *)
+Theorem C08_rdomain_cycle_holds_now : rdomain_cycle_statement.
+Proof. exact (fun k => rdomain_if_fixed k eq_refl). Qed.
+Print Assumptions C08_rdomain_cycle_holds_now.
+
+Theorem C08_reject_names_file_holds_now : forall E m text c,
+  config_parse E (tables_of m) text = Rejected c ->
+  (forall vars stdin, r_exit (robsd_config E (tables_of m) text vars stdin) = 1
+                      /\ r_stdout (robsd_config E (tables_of m) text vars stdin) = [])
+  /\ exists d, In d (c_diags c) /\ d_path d = P_conf.
+Proof.
+  exact (fun E m text c H =>
+    conj (proj1 (reject_has_diagnostic_partial E m text c H))
+         (reject_names_file_if_fixed E (tables_of m) text c (wf_tokens_gen m)
+            (match m return t_interp_path (tables_of m) = true with
+             | ROBSD => eq_refl | ROBSD_CROSS => eq_refl | ROBSD_PORTS => eq_refl | ROBSD_REGRESS => eq_refl | CANVAS => eq_refl end) H)).
+Qed.
+Print Assumptions C08_reject_names_file_holds_now.
+
 (* ------------------------------------------------------------------ non-vacuity *)
 Example C08_nonvacuous :
   (exists c, text_conforms wit_env (tables_of ROBSD_REGRESS) wit_regress_text c)
